@@ -43,7 +43,8 @@ Definition nl_rec_step (packed : bool) (st : Z * Z * list Z) (f : Z * Z) : Z * Z
 Definition nl_rec_finish (nfields : nat) (packed : bool) (aligned : option Z) (offset align : Z) : Z * Z :=
   let '(offset, align) :=
     match nfields with
-    | O => (offset, align)
+    | O => (* no fields: the C struct still gets the alignment attribute (repaired in 3c0ba5f) *)
+      (offset, match aligned with Some A => Z.max A align | None => align end)
     | _ =>
       let offset := if packed then offset else align_forward offset align in
       match aligned with
@@ -55,8 +56,9 @@ Definition nl_rec_finish (nfields : nat) (packed : bool) (aligned : option Z) (o
      align = math.max(align, offset) with offset = emptysize) *)
   if offset =? 0 then (emptysize, Z.max align emptysize) else (offset, align).
 
+(* a zero-size union keeps the alignment of its members (repaired in bac28d6) *)
 Definition nl_uni_finish (size align : Z) : Z * Z :=
-  if size =? 0 then (emptysize, emptysize) else (align_forward size align, align).
+  if size =? 0 then (emptysize, Z.max align emptysize) else (align_forward size align, align).
 
 (* (size, align) as the compiler computes them *)
 Fixpoint nl (t : ty) : Z * Z :=
@@ -111,10 +113,9 @@ Definition static_assert_holds (t : ty) : bool :=
   let '(s, a) := nl t in
   if 0 <? s then (fst (cl t) =? s) && (snd (cl t) =? a) else true.
 
-(* well-formed type trees: primitives of the table, arrays of any length >= 0, user alignments that are
-   powers of two (up to 65536) on records that have at least one field, unions of non-zero size.
-   (What is left out is exactly what is still false on the unchanged tree: a zero-size union and an
-   `aligned` record without fields forget their alignment.) *)
+(* well-formed type trees: primitives of the table, arrays of any length >= 0, records (packed or not,
+   with or without fields) whose user alignment is a power of two up to 65536, unions - nested arbitrarily.
+   Nothing the analyzer accepts is left out any more (61ca8bb, bac28d6, 3c0ba5f). *)
 Definition is_pow2 (a : Z) : bool := (0 <? a) && (Z.land a (a - 1) =? 0).
 Fixpoint wfb (t : ty) : bool :=
   match t with
@@ -123,8 +124,8 @@ Fixpoint wfb (t : ty) : bool :=
   | TArr t n => wfb t && (0 <=? n)
   | TRec fs packed aligned =>
     forallb wfb fs &&
-    match aligned with Some A => is_pow2 A && (A <=? 65536) && negb (Nat.eqb (length fs) 0) | None => true end
-  | TUni fs => forallb wfb fs && negb (fst (cl (TUni fs)) =? 0)
+    match aligned with Some A => is_pow2 A && (A <=? 65536) | None => true end
+  | TUni fs => forallb wfb fs
   end.
 
 (* ------------------------------------------------------------------ *)
